@@ -63,6 +63,7 @@ func c02Items(thorough bool) []Inl {
 		em(strong(w("a"))), strong(em(w("a"))), em(w("a"), strong(w("b"))), strong(w("a"), em(w("b"))), em(strong(w("a")), w("b")),
 		link("/u\x01*", "t\x01\"", w("a")), link("/u\x01(x", "", w("a")), link("/u", "a\x01&b", em(w("a"))), image("/i\x01_", "t", w("a"), em(w("b"))),
 		link("/u", "", em(w("a")), w("b")), link("/u", "", image("/i", "", w("a"))), link("/u\x01\\", "", w("a")),
+		link("/u", "", w("a"), softBrk, w("b")), link("/u", "t", w("c"), softBrk, w("d")), image("/i", "", w("a"), softBrk, w("b")), em(w("a"), softBrk, w("b")),
 		Inl{K: iAuto, S: "http://a.b/c"}, Inl{K: iAuto, S: "a@b.cd"}, Inl{K: iAuto, S: "http://a.b/?x=1&y=2"},
 		Inl{K: iRaw, S: "<b>"}, Inl{K: iRaw, S: "</b>"}, Inl{K: iRaw, S: "<i class=\"x\">"})
 	if thorough {
@@ -424,6 +425,9 @@ func runC02(r *core.Run) {
 			return []Blk{heading(1, q...)}
 		}},
 		{"quote-item", func(q []Inl) []Blk { return []Blk{quote(para(q...)), ulist(true, []Blk{para(q...)})} }},
+		{"para-quote-para", func(q []Inl) []Blk {
+			return []Blk{para(q...), quote(para(q...)), olist(1, false, []Blk{para(q...), para(q...)})}
+		}},
 	}
 	d := 2
 	for wi, wr := range wrappers {
